@@ -50,7 +50,7 @@ def std_alphabet(world, h, redo_targets=None, touch=True, rm_targets=True, dovar
 
 
 def run_property(pid, tier, plan, check_mod, level="model_checking", rule="", assumptions=(), budget_s=None,
-                 extra_coverage=None, explore_opts=None, post=None):
+                 extra_coverage=None, explore_opts=None, post=None, check_names=None):
     """plan: list of (world, alphabet_fn, depth). Runs BFS for each, aggregates, writes evidence, prints verdict."""
     t0 = time.time()
     bindir = common.build_subject()
@@ -68,8 +68,10 @@ def run_property(pid, tier, plan, check_mod, level="model_checking", rule="", as
             left = None
             if budget_s:
                 left = max(5.0, budget_s - (time.time() - t0))
+            cname = (check_names or {}).get(world.name, "step_check")
             if isinstance(alphabet, list):   # an explicit list of histories instead of an alphabet
-                r = ex.run_histories(world, alphabet, check_mod, opts=explore_opts or {}, twice=min(8, len(alphabet)))
+                r = ex.run_histories(world, alphabet, check_mod, check_name=cname, opts=explore_opts or {},
+                                     twice=min(8, len(alphabet)))
             else:
                 o = dict(explore_opts or {})
                 o["shadow_min_len"] = depth   # (C17) a deepest history's shadow replay covers all its prefixes
